@@ -319,7 +319,7 @@ class Ctx:
         return exe
 
     # ---------- step 4: running line-protocol processes ----------
-    def run_lines(self, cmd, cases, timeout_per_case=10.0, env=None, crash_tag="CRASH", max_line=64 << 20):
+    def run_lines(self, cmd, cases, timeout_per_case=10.0, env=None, crash_tag="CRASH", max_line=64 << 20, max_hangs=12):
         """feed cases (list of str) to a line-protocol process; returns list of result lines.
         If the process dies at case k, result k is 'CRASH <reason>'; if it produces no answer
         within timeout_per_case seconds (or floods its output) result k is 'HANG ...'; the
@@ -327,6 +327,7 @@ class Ctx:
         import threading, select
         results = [None] * len(cases)
         start = 0
+        nhang = 0
         e = dict(os.environ)
         e.setdefault("ASAN_OPTIONS", "detect_leaks=0:abort_on_error=0:allocator_may_return_null=1:hard_rss_limit_mb=6000")
         e.setdefault("UBSAN_OPTIONS", "print_stacktrace=0")
@@ -398,6 +399,13 @@ class Ctx:
             errf.close()
             results[start + n] = reason
             start = start + n + 1
+            if reason.startswith("HANG"):
+                nhang += 1
+                if nhang >= max_hangs:
+                    # the process under test hangs again and again: enough evidence, do not spend 10 s on every further case
+                    for k in range(start, len(cases)):
+                        results[k] = "HANG not-run (the process hung on %d earlier cases of this batch)" % nhang
+                    break
         return results
 
     # ---------- step 7: classify / report ----------
